@@ -86,13 +86,14 @@ def _events(args):
         config["EVAL_UNSEEN_CATEGORIES"] = "silent"
         cur_c, cur_g = dm.common, dm.group
         for step in range(2):
-            k = rng.randint(1, n)
+            k = rng.randint(1, n) if step == 0 or rng.random() < 0.5 else k
             sel = [rng.randrange(n) for _ in range(k)]
             new = w.df.iloc[sel].reset_index(drop=True).copy()
             if rng.random() < 0.6:
                 # unseen groups: rename some cells of the grouping variables
+                only = rng.choice(["g", "h", "f", None])   # often exactly one factor gets new groups in a step
                 for col in ("g", "h", "f"):
-                    if rng.random() < 0.5:
+                    if (only is None and rng.random() < 0.5) or col == only:
                         s = new[col].astype(object)
                         for r in range(len(s)):
                             if rng.random() < 0.4:
@@ -110,7 +111,27 @@ def _events(args):
                         out.append({"id": base + 4 + step * 4 + (0 if part == "common" else 1), "kind": "object", "status": type(e).__name__ + ":" + str(e)[:60], "slices": [], "ncols": 0, "nrows": 0,
                                     "want_rows": len(new), "views": False, "printed": False, "tag": f"new{step}:{part}"})
                         continue
-                    out.append(object_event(base + 4 + step * 4 + (0 if part == "common" else 1), res, len(new), f"new{step}:{part}"))
+                    ev_obj = object_event(base + 4 + step * 4 + (0 if part == "common" else 1), res, len(new), f"new{step}:{part}")
+                    if part == "group" and ev_obj["status"] == "ok":
+                        # which term owns which columns does not depend on the object the evaluation started from: the
+                        # training width of each term, plus one block of its effect columns iff the frame holds a new group
+                        want, start = [], 0
+                        try:
+                            for tname, tm in dm.group.terms.items():
+                                s0 = dm.group.slices[tname]
+                                w0 = s0.stop - s0.start
+                                fv_ = sorted(tm.factor.var_names)
+                                seen_groups = set(zip(*[w.df[v].astype(str) for v in fv_]))
+                                new_groups = set(zip(*[new[v].astype(str) for v in fv_]))
+                                wd = w0 + (w0 // len(tm.groups) if new_groups - seen_groups else 0)
+                                want.append([start, start + wd])
+                                start += wd
+                            if ev_obj["slices"] != want:
+                                ev_obj["views"] = False
+                                ev_obj["tag"] += ":slices_differ_from_term_widths"
+                        except Exception:  # pylint: disable=broad-except
+                            pass
+                    out.append(ev_obj)
                     if part == "common":
                         cur_c = res
                     else:
@@ -141,8 +162,63 @@ def _events(args):
     return out, text
 
 
+def _alternating_chain(args):
+    """Two grouping factors with equally wide terms; the object returned for a frame with a new group of the
+    first factor is evaluated on a frame of the same length with a new group of the second factor only."""
+    idx, seed = args
+    from formulae import config
+
+    rng = random.Random((seed * 7129 + idx) & 0xFFFFFFFF)
+    w = gen.gen_world(rng, nmin=6, nmax=12)
+    a, b = rng.sample(["g", "h", "f"], 2)
+    eff = rng.choice(["1", "x", "x", "0 + x"])
+    text = f"y ~ z + ({eff} | {a}) + ({eff} | {b})"
+    st, dm = design.build(text, w.df)
+    out = []
+    if st != "ok" or dm.group is None:
+        return out, text
+    base = 10_000_000 + idx * 10
+    k = rng.randint(2, w.n)
+    old = config["EVAL_UNSEEN_CATEGORIES"]
+    try:
+        config["EVAL_UNSEEN_CATEGORIES"] = "silent"
+        cur = dm.group
+        for step, col in enumerate((a, b, a)):
+            sel = [rng.randrange(w.n) for _ in range(k)]
+            new = w.df.iloc[sel].reset_index(drop=True).copy()
+            sr = new[col].astype(object)
+            sr.iloc[rng.randrange(k)] = "NEW"
+            new[col] = sr
+            with warnings.catch_warnings():
+                warnings.simplefilter("ignore")
+                try:
+                    res = cur.evaluate_new_data(new)
+                except Exception as e:  # pylint: disable=broad-except
+                    out.append({"id": base + step, "kind": "object", "status": type(e).__name__ + ":" + str(e)[:60], "slices": [], "ncols": 0, "nrows": 0, "want_rows": k, "views": False, "printed": False, "tag": f"alternating{step}:group"})
+                    break
+            ev = object_event(base + step, res, k, f"alternating{step}:group")
+            want, start = [], 0
+            for tname, tm in dm.group.terms.items():
+                s0 = dm.group.slices[tname]
+                w0 = s0.stop - s0.start
+                fv_ = sorted(tm.factor.var_names)
+                grown = bool(set(zip(*[new[v].astype(str) for v in fv_])) - set(zip(*[w.df[v].astype(str) for v in fv_])))
+                wd = w0 + (w0 // len(tm.groups) if grown else 0)
+                want.append([start, start + wd])
+                start += wd
+            if ev["status"] == "ok" and ev["slices"] != want:
+                ev["views"] = False
+                ev["tag"] += ":slices_differ_from_term_widths"
+            out.append(ev)
+            cur = res
+    finally:
+        config["EVAL_UNSEEN_CATEGORIES"] = old
+    return out, text
+
+
 def run(rep, n, seed):
     results = common.pool_map(_events, [(i, seed) for i in range(n)])
+    results += common.pool_map(_alternating_chain, [(i, seed) for i in range(max(40, n // 6))])
     events, texts = [], {}
     for lst, text in results:
         rep.cov["evaluations"] += 1
